@@ -275,6 +275,7 @@ theorem wf_step (shape : List SyncSite) (s : State U B D) (h : s.WF) (o : Op U B
   | deleteSigned u t => exact ⟨h.1, wf_del _ h.2 (u, t)⟩
   | tick d => exact h
   | sync sem f => exact h
+  | restart => exact h
 
 theorem wf_runOps (s : State U B D) (h : s.WF) (ops : List (Op U B D)) : (runOps s ops).WF := by
   induction ops generalizing s with
@@ -284,6 +285,16 @@ theorem wf_runOps (s : State U B D) (h : s.WF) (ops : List (Op U B D)) : (runOps
 theorem runOps_append (s : State U B D) (a b : List (Op U B D)) :
     runOps s (a ++ b) = runOps (runOps s a) b := by
   simp [runOps, List.foldl_append]
+
+theorem reopen_harmless (stmts : List InitStmt) (h : stmts.all InitStmt.harmless = true)
+    (c : Store U B D) : reopen stmts c = c := by
+  induction stmts generalizing c with
+  | nil => rfl
+  | cons a r ih =>
+    simp only [List.all_cons, Bool.and_eq_true] at h
+    simp only [reopen, List.foldl_cons]
+    have : applyInit c a = c := by cases a <;> simp_all [applyInit, InitStmt.harmless]
+    rw [this]; exact ih h.2 c
 
 theorem cache_nonsync (s : State U B D) (o : Op U B D) (h : o.isSync = false) :
     (stepOp s o).cache = s.cache := by
